@@ -59,7 +59,53 @@ DEMO_TOOLCHAIN = []
 DEMO_ARGS = []
 
 
+def run_checks(wt):
+    caught = {}
+    evd = os.path.join(wt, "evidence")
+    for p in PROPS:
+        e = dict(os.environ)
+        e["VERIF_REPO"] = wt
+        e["VERIF_EVIDENCE_DIR"] = evd
+        rc, out = sh([os.path.join(VERIF, "verif"), "check", p, "--tier", "quick"], cwd=VERIF, env=e)
+        lines = [l for l in out.splitlines() if l.startswith(("VIOLATION:", "MISSING:", "cannot extract"))]
+        if rc != 0:
+            caught[p] = [re.sub(r"\s+@ .*?key=", " key=", l)[:400] for l in lines][:6]
+    return caught
+
+
+def recheck(seed_ids):
+    """Re-run every check against already confirmed seeds (patch from /verif/seeded/<id>/) and refresh meta.json."""
+    rc_all = 0
+    for sid in seed_ids:
+        d = os.path.join(VERIF, "seeded", sid)
+        meta = json.load(open(os.path.join(d, "meta.json")))
+        wt = tempfile.mkdtemp(prefix="vseed-", dir="/tmp")
+        os.rmdir(wt)
+        rc, out = sh(["git", "-C", REPO, "worktree", "add", "--detach", wt, "HEAD"])
+        try:
+            rc, out = sh(["git", "apply", os.path.join(d, "patch.diff")], cwd=wt)
+            if rc != 0:
+                print(sid, "patch does not apply any more:", out[-300:])
+                rc_all = 1
+                continue
+            caught = run_checks(wt)
+            meta["caught_by"] = caught
+            meta["caught_by_own_property"] = meta["property"] in caught
+            with open(os.path.join(d, "meta.json"), "w") as fh:
+                json.dump(meta, fh, indent=1)
+            print(json.dumps({"seed": sid, "caught_by": sorted(caught), "own": meta["property"] in caught}), flush=True)
+            if meta["property"] not in caught:
+                rc_all = 1
+        finally:
+            sh(["git", "-C", REPO, "worktree", "remove", "--force", wt])
+            shutil.rmtree(wt, ignore_errors=True)
+    return rc_all
+
+
 def main():
+    if sys.argv[1] == "--recheck":
+        ids = sys.argv[2:] or sorted(x for x in os.listdir(os.path.join(VERIF, "seeded")) if os.path.isdir(os.path.join(VERIF, "seeded", x)))
+        return recheck(ids)
     src, k, seed_id, pid = sys.argv[1:5]
     # optional: how the demonstration has to be built, e.g. "+nightly --features specialized"
     for a in " ".join(sys.argv[5:]).split():
@@ -101,16 +147,7 @@ def main():
             print("demo still passes with the change")
             return 1
         # run all checks against the changed tree
-        caught = {}
-        evd = os.path.join(wt, "evidence")
-        for p in PROPS:
-            e = dict(os.environ)
-            e["VERIF_REPO"] = wt
-            e["VERIF_EVIDENCE_DIR"] = evd
-            rc, out = sh([os.path.join(VERIF, "verif"), "check", p, "--tier", "quick"], cwd=VERIF, env=e)
-            lines = [l for l in out.splitlines() if l.startswith(("VIOLATION:", "MISSING:", "cannot extract"))]
-            if rc != 0:
-                caught[p] = [re.sub(r"\s+@ .*?key=", " key=", l)[:400] for l in lines][:6]
+        caught = run_checks(wt)
         meta["caught_by"] = caught
         meta["caught_by_own_property"] = pid in caught
         dst = os.path.join(VERIF, "seeded", seed_id)
